@@ -388,7 +388,7 @@ def check_C10(ctx):
     # ... and the TCP method policy's fault cases (a failing capture handle during the SACK attempt is not "SACK unavailable"), and the
     # rejected TCP-over-IPv6 requests (handles opened before the rejection are closed)
     scen += [x for x in vt.tlc_generate(ctx, 'GenRun', 'C20', 0) if x.get('faults')]
-    scen += [x for x in vt.tlc_generate(ctx, 'GenRun', 'C19', 0) if x['run']['protocol'] == 'tcp' and ':' in x['run']['hostname'] and x['run'].get('via', 'lib') == 'lib'][:12]
+    scen += [x for x in vt.tlc_generate(ctx, 'GenRun', 'C19', 0) if x['run']['protocol'] == 'tcp' and '2001:' in x['run']['hostname'] and x['run'].get('via', 'lib') == 'lib'][:12]
     wire_family(ctx, 'C10', scen, rule, nontrivial=lambda s, es: any(e['event'] == 'Fault' for e in es))
     ctx.extra['rule'] = rule + '; plus ' + (WIRE_RULE % 'C10All (the k-th call of every Source/Sink operation and constructor x error class, on every protocol entry point)') + '; non-trivial = the fault fired'
     vt.write_evidence(ctx, 'model_checking', ctx_rule(ctx), exhaustive=True)
